@@ -673,7 +673,11 @@ impl<K: Hash + Eq, V, E: OnEvictCallback, S: BuildHasher> ResizableCache for Raw
         }
 
         while self.map.len() > cap {
-            self.remove_lru();
+            // a panic in user code during an earlier call can leave the least recently used node
+            // without an index entry; `remove_lru` then makes no progress and the loop must not spin
+            if self.remove_lru().is_none() {
+                break;
+            }
             evicted += 1;
         }
         self.map.shrink_to_fit();
